@@ -6,6 +6,7 @@
 # still on disk.  Rule: in every function that consults `LiveOverlay::value`, each fall-back read of the store
 # (`Store::load_value`, `beatree::ReadTransaction::lookup*`) is reachable only through the None edge of a branch taken
 # DIRECTLY on that lookup's result; the fall-back must not be reachable from the edge on which the overlay had an entry.
+import re
 from core import trace, CheckBroken
 
 LOOKUP = "nomt::overlay::LiveOverlay::value"
@@ -100,4 +101,107 @@ def s8(facts, rep):
                         rep.check(not reads, "S8", short, "ending-adapter|%s" % m, "the closure handed to `%s` at %s consults min_seqn: a stale index entry (an ancestor committed in the meantime) ends the iteration instead of being skipped, hiding every live overlay change that sorts after it" % (m, t.get("ln")), site=t.get("ln"), detail="`%s` ends the iteration on the range bound only" % m)
     n += 1
     rep.ok("S8", "overlay::LiveOverlay", "ending-adapters", detail="%d closure(s) handed to iteration-ending adapters inspected" % seen)
+    return n
+
+
+# ---- S9: a stored leaf is the completed leaf only after the overlay's deletions were consulted ------
+# `SeekRequest::continue_leaf_fetch` looks for the stored leaf that terminates a seek.  The items come from the beatree
+# iterator (the state ON DISK); keys deleted by an uncommitted ancestor are carried in the request's `overlay_deletions` and
+# must be skipped - whatever the item's kind (inline value or overflow value).  Rule: on every path from the iterator's
+# `next()` to the construction of the completed `LeafData`, a call receives BOTH the deletions and the item (the filter:
+# `manage_deletions(&overlay_deletions, idx, &key)`, a binary search, a direct comparison ..), its result decides a branch, and
+# one edge of that branch goes back for the next item without completing.
+S9_FN = "nomt::merkle::seek::SeekRequest::continue_leaf_fetch"
+S9_NEXT = "nomt::beatree::iterator::BeatreeIterator::next"
+S9_LEAF = "nomt_core::trie::LeafData"
+S9_FIELD = "overlay_deletions"
+
+
+def _deep_roots(body, op, depth=0, seen=None):
+    """roots of every value `op` is computed from: through aggregates, call arguments and binops"""
+    if seen is None:
+        seen = set()
+    out = []
+    if depth > 6:
+        return out
+    for r in trace(body, op, deep=True):
+        if r.key() in seen:
+            continue
+        seen.add(r.key())
+        out.append(r)
+        if r.kind in ("call", "via") and r.obj is not None:
+            for a in r.obj.get("args", []):
+                out += _deep_roots(body, a, depth + 1, seen)
+        elif r.kind == "binop" and r.obj is not None:
+            for kk in ("a", "b"):
+                if kk in r.obj:
+                    out += _deep_roots(body, r.obj[kk], depth + 1, seen)
+    return out
+
+
+def s9(facts, rep):
+    body = facts.bodies.get(S9_FN)
+    if body is None:
+        raise CheckBroken("anchor missing: %s" % S9_FN)
+    short = body.id.split("::", 1)[1]
+    cleanup = {b for b in range(body.n) if body.is_cleanup(b)}
+    nexts = [b for b, t in body.calls() if t.get("callee") == S9_NEXT and b not in cleanup]
+    targets = []
+    for b in range(body.n):
+        if b in cleanup:
+            continue
+        for s_ in body.stmts(b):
+            if s_["k"] == "assign" and s_["rv"]["k"] == "agg" and s_["rv"].get("name") == S9_LEAF:
+                if any(r.kind == "call" and str(r.what) == S9_NEXT for o in s_["rv"]["ops"] for r in _deep_roots(body, o)):
+                    targets.append(b)
+    uses_field = S9_FIELD in repr([body.stmts(b) for b in range(body.n) if b not in cleanup])
+    if not nexts or not targets or not uses_field:
+        rep.notes.append("S9: %s no longer has the shape `item = beatree_iterator.next(); .. LeafData{key_path: item.key}` over a request carrying `overlay_deletions` (next calls: %d, completions: %d, deletions referenced: %s): not decided" % (short, len(nexts), len(targets), uses_field))
+        return 0
+
+    def is_del(r):
+        return r.kind in ("param", "upvar") and S9_FIELD in r.fields
+
+    def is_item(r):
+        return r.kind == "call" and str(r.what) == S9_NEXT
+
+    filters = []
+    for b, t in body.calls():
+        if b in cleanup or b in nexts or not t.get("args"):
+            continue
+        roots = [r for a in t["args"] for r in _deep_roots(body, a)]
+        if not (any(is_del(r) for r in roots) and any(is_item(r) for r in roots)):
+            continue
+        # the result decides a branch with an edge that goes back for the next item without completing
+        decided = False
+        for sb in range(body.n):
+            st = body.term(sb)
+            if st["k"] != "switch" or sb in cleanup or not body.dominates(b, sb):
+                continue
+            if not any(r.kind == "call" and r.bb == b for r in _deep_roots(body, st["d"])):
+                continue
+            for e in body.succ(sb):
+                if e in cleanup:
+                    continue
+                reach = body.reachable([e], cleanup | set(nexts))
+                if not any(tb in reach for tb in targets) and any(nb in body.reachable([e], cleanup) for nb in nexts):
+                    decided = True
+        if decided:
+            filters.append(b)
+    n = 0
+    for nb in nexts:
+        reach = body.reachable(body.succ(nb), cleanup | set(filters) | set(nexts))
+        for tb in targets:
+            n += 1
+            bad = tb in reach
+            path = ""
+            if bad:
+                # name the item kinds whose arm reaches the completion unfiltered
+                kinds = set()
+                for b in sorted(reach):
+                    if tb in body.reachable([b], cleanup | set(filters) | set(nexts)):
+                        kinds |= set(re.findall(r"@(\w*Item)\b", repr(body.stmts(b))))
+                if kinds:
+                    path = " (item kind: %s)" % ", ".join(sorted(kinds))
+            rep.check(not bad, "S9", short, "item-filtered-by-overlay-deletions", "in %s a stored item returned by the beatree iterator at %s can become the completed leaf without being checked against the overlay's deletions%s: a key deleted in an uncommitted ancestor is proved / hashed as if it still existed" % (short, body.term(nb).get("ln"), path), site=body.term(nb).get("ln"), detail="every path next() -> LeafData passes one of the %d filter call(s) at bb%s whose result can send the loop back for the next item" % (len(filters), filters))
     return n
